@@ -136,6 +136,37 @@ def run(tier, seed):
         evl = lst([("EHop %s %s %s" if kd == 0 else "EFrustrated %s %s %s") % (nat(k_), nat(a_), nat(b_)) for k_, kd, a_, b_ in evs])
         tcases.append(tup(nat(o["active"][0]), atts, lst([nat(a) for a in o["active"][1:]]), evl))
         tmeta.append(info)
+    # ---- complete even-sampling trees: every trace (children inherit the parent's history) must satisfy the same statement
+    import mudslide
+    from mudslide.models import scattering_models as MM
+    from mudslide.batch import BatchedTraj, TrajGenConst
+    from mudslide.tracer import TraceManager, InMemoryTrace, YAMLTrace
+    from mudslide.even_sampling import EvenSamplingTrajectory
+    for k in range(6 if tier == "quick" else 60):
+        mname, nst, x0, (plo, phi) = MODELS[k % 4]
+        backend = ["memory", "yaml"][k % 2]; stack = [[2], [3, 2], [2, 2, 2], [2, 2]][(k // 2) % 4]
+        d = os.path.join(tmproot, "es%d" % k); os.makedirs(d)
+        tm = TraceManager(TraceType=InMemoryTrace) if backend == "memory" else TraceManager(TraceType=YAMLTrace, trace_kwargs=dict(location=d, log_pitch=rng.choice([4, 512])))
+        p0 = rng.uniform(plo, phi); dt = rng.choice([10.0, 20.0])
+        b = BatchedTraj(MM[mname](), TrajGenConst([x0], [p0], 0, seed=rng.randrange(2 ** 31)), EvenSamplingTrajectory, samples=1, dt=dt, bounds=[-abs(x0) - 1, abs(x0) + 1], max_steps=800,
+                        tracemanager=tm, spawn_stack=list(stack), quadrature=rng.choice(["gl", "midpoint"]), mcsamples=rng.choice([1, 1, 2]))
+        r = b.compute()
+        info = dict(cls="even-sampling tree", model=mname, x0=x0, p0=p0, dt=dt, stack=stack, backend=backend, traces=len(r.traces))
+        for ti, t in enumerate(r.traces):
+            snaps = [s_ for s_ in t]
+            if backend == "memory":
+                hops = [dict(h) for h in t.hops]; fr = [dict(e) for e in t.events.get("frustrated_hop", [])]
+            else:
+                with open(os.path.join(d, t.event_log)) as f_:
+                    evs_ = yaml.safe_load(f_) or []
+                hops = [e for e in evs_ if e.get("event") == "hop"]; fr = [e for e in evs_ if e.get("event") == "frustrated_hop"]
+            o = dict(active=[int(s_["active"]) for s_ in snaps], times=[float(s_["time"]) for s_ in snaps], hops=hops, fr=fr, atts=[(0, False)] * len(fr))
+            f = traj_oracle(o)
+            res.count("es-tree-traces/" + backend); res.count("es-tree-hops", len(hops))
+            if f:
+                tbad.append(dict(failed="even-sampling tree, trace %d of %d: %s" % (ti, len(r.traces), f), case=info)); break
+        res.case(("estree", mname, p0, dt, tuple(stack), backend), len(r.traces) > 1, info)
+        shutil.rmtree(d, ignore_errors=True)
     shutil.rmtree(tmproot, ignore_errors=True)
     ev_eqb = ("(fun a b => match a, b with EHop k f t, EHop k' f' t' => Nat.eqb k k' && Nat.eqb f f' && Nat.eqb t t' "
               "| EFrustrated k f t, EFrustrated k' f' t' => Nat.eqb k k' && Nat.eqb f f' && Nat.eqb t t' | _, _ => false end)")
@@ -156,6 +187,6 @@ def run(tier, seed):
                            failing_inputs=corr, no_failing_input_found=True))
     return finish(res, thm,
                   rule="hop level as C01 (4 classes x gap regimes incl. 1e-13 from threshold and exact ties); trajectory level: FSSH / cumulative / A-FSSH runs on 2-, 3-, 8-state models, "
-                       "random thresholds forcing hops, both trace back-ends, the observed hopper decisions replayed through Events.run_from and compared with the active column and the event log; "
+                       "random thresholds forcing hops, both trace back-ends, the observed hopper decisions replayed through Events.run_from and compared with the active column and the event log; complete even-sampling trees (stacks of depth 1-3, both back-ends): every trace, inherited history included, against its own event log; "
                        "non-trivial = trajectory with at least one hop or frustrated hop, or distinct hop input",
                   assumptions=["hopper decisions (target, allowed) are observed by wrapping hopper/hop_allowed from outside", "event time == snapshot time compared exactly"])
